@@ -6,6 +6,7 @@ pub mod circuit;
 pub mod coalesce;
 pub mod common;
 pub mod fallback;
+pub mod healthcheck;
 pub mod hedge;
 pub mod ratelimiter;
 pub mod reconnect;
@@ -16,7 +17,7 @@ pub mod timelimiter;
 use crate::driver::Prop;
 
 pub fn all() -> Vec<Box<dyn Prop>> {
-    vec![Box::new(bulkhead::C01), Box::new(bulkhead::C07), Box::new(timelimiter::C06), Box::new(retry::C05), Box::new(hedge::C12), Box::new(coalesce::C11), Box::new(ratelimiter::C02), Box::new(ratelimiter::C15), Box::new(circuit::C03), Box::new(circuit::C04), Box::new(circuit::C09), Box::new(cache::C10), Box::new(threads::C08), Box::new(c13::C13), Box::new(reconnect::C14), Box::new(reconnect::C16), Box::new(fallback::C17)]
+    vec![Box::new(bulkhead::C01), Box::new(bulkhead::C07), Box::new(timelimiter::C06), Box::new(retry::C05), Box::new(hedge::C12), Box::new(coalesce::C11), Box::new(ratelimiter::C02), Box::new(ratelimiter::C15), Box::new(circuit::C03), Box::new(circuit::C04), Box::new(circuit::C09), Box::new(cache::C10), Box::new(threads::C08), Box::new(c13::C13), Box::new(reconnect::C14), Box::new(reconnect::C16), Box::new(fallback::C17), Box::new(healthcheck::C18)]
 }
 
 pub fn by_id(id: &str) -> Option<Box<dyn Prop>> {
